@@ -143,6 +143,80 @@ def _user_keys(r, p, reach):
         raise AnalysisError("only %d computed-key look-ups in user-supplied mappings found" % n_sites)
 
 
+def _option_parse(r, p):
+    """Options such as number_of_spaces accept documented textual forms ('>=2', '>1', '<=3', '<4', '2+').  The number is
+    read with int(text[k:]) / int(text[:-k]): that is only right - and only free of ValueError - in a branch where the
+    text is known to start (end) with a marker of exactly k characters."""
+    import re as _re
+
+    n_sites = 0
+    for ci in sorted(p.classes.values(), key=lambda c: c.key):
+        if not ci.module.name.startswith("vsg.rules"):
+            continue
+        sites = []
+        for m in ci.methods.values():
+            if m.cls is not ci:
+                continue
+            for n in walk_function(m.node):
+                if isinstance(n, ast.Call) and isinstance(n.func, ast.Name) and n.func.id == "int" and len(n.args) == 1 and isinstance(n.args[0], ast.Subscript) and isinstance(n.args[0].slice, ast.Slice):
+                    sub = n.args[0]
+                    if isinstance(sub.value, ast.Attribute) and isinstance(sub.value.value, ast.Name) and sub.value.value.id == "self":
+                        sites.append((m, n, sub))
+        if not sites:
+            continue
+        # predicate methods of the class: `self.A.startswith(C)` / endswith, directly or as `if ...: return True`
+        pred = {}
+        for m in ci.methods.values():
+            tests = [x for x in walk_function(m.node) if isinstance(x, ast.Call) and isinstance(x.func, ast.Attribute) and x.func.attr in ("startswith", "endswith") and len(x.args) == 1 and isinstance(x.args[0], ast.Constant) and isinstance(x.args[0].value, str)]
+            rets = [x for x in walk_function(m.node) if isinstance(x, ast.Return)]
+            if len(tests) == 1 and rets and len(m.params) == 1:
+                pred["self.%s()" % m.name] = (norm(tests[0].func.value), tests[0].func.attr, tests[0].args[0].value)
+
+        def guard_of(fi, node, attr_text):
+            out = []
+            for t, pol in Facts(fi.node).conds_at(node):
+                if pol is not True:
+                    continue
+                if t in pred and pred[t][0] == attr_text:
+                    out.append(pred[t][1:])
+                mm = _re.fullmatch(_re.escape(attr_text) + r"\.(startswith|endswith)\('(.*)'\)", t)
+                if mm:
+                    out.append((mm.group(1), mm.group(2)))
+            return out
+
+        for m, n, sub in sites:
+            n_sites += 1
+            attr_text = norm(sub.value)
+            lo, hi = sub.slice.lower, sub.slice.upper
+            want = None
+            if hi is None and isinstance(lo, ast.Constant) and isinstance(lo.value, int) and lo.value > 0:
+                want = ("startswith", lo.value)
+            elif (lo is None or (isinstance(lo, ast.Constant) and lo.value == 0)) and isinstance(hi, ast.UnaryOp) and isinstance(hi.op, ast.USub) and isinstance(hi.operand, ast.Constant):
+                want = ("endswith", hi.operand.value)
+            kk = "%s:%s" % (m.key, norm(n))
+            if want is None:
+                r.unknown("C19.parse", kk, "slice form not understood")
+                continue
+            gs = guard_of(m, n, attr_text)
+            if not gs:
+                # the method may be a branch of a dispatcher: every `self.m()` call site must carry the guard
+                calls = [(g, c) for g in ci.methods.values() for c in walk_function(g.node) if isinstance(c, ast.Call) and norm(c.func) == "self.%s" % m.name]
+                per_call = [guard_of(g, c, attr_text) for g, c in calls]
+                if calls and all(per_call):
+                    gs = [x for lst in per_call for x in lst]
+            good = [g for g in gs if g[0] == want[0] and len(g[1]) == want[1]]
+            wrong = [g for g in gs if g[0] == want[0] and len(g[1]) != want[1]]
+            if good and not wrong:
+                r.ok("C19.parse", kk, "under %s(%r)" % good[0], sample=n_sites < 4)
+            elif wrong:
+                r.fail("C19.parse", kk, "`%s` runs under %s(%r): the marker has %d character(s) but %d are cut off, so the number is read from the wrong place (ValueError on int(''), or a wrong count)" % (norm(n), wrong[0][0], wrong[0][1], len(wrong[0][1]), want[1]), m.loc(n))
+            else:
+                r.fail("C19.parse", kk, "`%s` is not dominated by a %s test of %s: a documented value of another textual form reaches it and int() raises ValueError - a traceback instead of a report" % (norm(n), want[0], attr_text), m.loc(n))
+    r.extra["option_text_parses"] = n_sites
+    if n_sites < 4:
+        raise AnalysisError("only %d int(<option text slice>) sites found in rule classes" % n_sites)
+
+
 def _self_attrs(r, p):
     bound = set()
     for m in p.modules.values():
@@ -199,12 +273,14 @@ def run(ctx):
     r.rule("C19.attr", "every attribute read on self is bound somewhere in the program")
     r.rule("C19.progress", "while loops in rules/extract make progress")
     r.rule("C19.unbound", "possibly-unbound locals (listing only)")
+    r.rule("C19.parse", "int() of a slice of a configured text runs only under a startswith/endswith test of that text whose constant has exactly the sliced length")
     r.explanation = "Whole-program def-use over functions reachable from vsg.__main__:main / apply_rules; each rule's hits are individually triaged (fixed, known finding, or tabled with reason)."
     main = p.function("vsg.__main__:main")
     ar = p.function("vsg.apply_rules:apply_rules")
     reach = cg.reachable([main, ar])
     _user_keys(r, p, reach)
     _self_attrs(r, p)
+    _option_parse(r, p)
     # ------------------------------------------------------------------ none
     mn = nf.may_none(p)
     r.extra["functions_that_may_return_none"] = len(mn)
@@ -533,6 +609,11 @@ def _unbound_in(fi):
 
 
 VARIANTS = [
+    Variant("C19", "every non-integer, non-plus form of number_of_spaces parsed as text[2:]", "fire",
+            [("vsg/rules/whitespace_between_tokens.py", "        elif self.number_of_spaces_is_gt():\n            return int(self.number_of_spaces[1:])", "        elif self.number_of_spaces_is_gt():\n            return int(self.number_of_spaces[2:])")],
+            rule="C19.parse"),
+    Variant("C19", "twin: the '>' form tested with startswith in place", "silent",
+            [("vsg/rules/whitespace_between_tokens.py", "        elif self.number_of_spaces_is_gt():\n            return int(self.number_of_spaces[1:])", "        elif self.number_of_spaces.startswith(\">\"):\n            return int(self.number_of_spaces[1:])")]),
     Variant("C19", "line-start look-up answers None for every token of the first line", "fire",
             [("vsg/token_map.py", "        if iIndex == 0:\n            return None\n        iTemp = bisect.bisect_left(self.dMap[\"parser\"][\"carriage_return\"], iIndex) - 1\n        if iIndex < self.dMap[\"parser\"][\"carriage_return\"][iTemp]:\n            return iIndex\n", "        iTemp = bisect.bisect_left(self.dMap[\"parser\"][\"carriage_return\"], iIndex) - 1\n        if iTemp < 0:\n            return None\n")],
             rule="C19.none", key="callee-changed"),
